@@ -17,25 +17,47 @@ TOOLS = ("genum", "gerror", "gsort")
 
 
 def run_translators(ctx, repo):
-    """regenerate TmplMethodsGen.v / BasicKindsGen.v from `repo` and compile them into ctx.gen.
+    """regenerate TmplMethodsGen.v / BasicKindsGen.v from `repo` and IfaceSigsGen.v from the compiled
+    interfaces (farm harness, reflection), compile them into ctx.gen together with GenTables.v.
     Returns (ok, detail)."""
-    for cmd, name in (("xlate_tmpl_methods", "TmplMethodsGen"), ("xlate_basic_kinds", "BasicKindsGen")):
+    steps = [("xlate_tmpl_methods", "TmplMethodsGen", lambda b, out: [b, "-repo", repo, "-out", out]),
+             ("xlate_basic_kinds", "BasicKindsGen", lambda b, out: [b, "-repo", repo, "-out", out]),
+             ("c13", "IfaceSigsGen", lambda b, out: [b, "-mode", "sigs", "-out", out])]
+    for cmd, name, argv in steps:
         binp, log = ctx.build_harness(cmd)
         if not binp:
             return False, "building %s failed:\n%s" % (cmd, log[-2000:])
         out = os.path.join(ctx.scratch, name + ".v.tmp")
-        rc, o = vlib.sh([binp, "-repo", repo, "-out", out], timeout=120)
+        rc, o = vlib.sh(argv(binp, out), timeout=120)
         if rc != 0:
             return False, "%s failed on the current tree:\n%s" % (cmd, o[-2000:])
         rc, o = ctx.coq_eval(name, open(out).read(), timeout=300)
         if rc != 0:
             return False, "generated %s.v does not compile:\n%s" % (name, o[-2000:])
+    rc, o = ctx.coq_eval("GenTables", GEN_TABLES, timeout=300)
+    if rc != 0:
+        return False, "GenTables.v does not compile:\n%s" % o[-2000:]
     return True, ""
+
+
+GEN_TABLES = """From Coq Require Import String List.
+From GT Require Import GenBuildModel.
+From GTgen Require Export TmplMethodsGen BasicKindsGen IfaceSigsGen.
+Definition gen_tables : tmpl_tables := gen_tables_of gen_iface_sigs.
+"""
+
+# fallback when a translator cannot read the current tree: judge against the hand copies
+HAND_TABLES = """From Coq Require Import String List.
+From GT Require Import GenBuildModel.
+Definition gen_tables : tmpl_tables := hand_tables.
+Definition gen_kinds : list bkind := hand_kinds.
+Definition gen_render : rexpr := hand_render.
+"""
 
 
 TIE_EVAL = """From Coq Require Import String List Bool.
 From GT Require Import GenBuildModel GenBuildProofs.
-From GTgen Require Import TmplMethodsGen BasicKindsGen.
+From GTgen Require Import GenTables.
 Import ListNotations.
 Local Open Scope string_scope.
 Set Printing Width 100000. Set Printing Depth 1000000.
@@ -45,15 +67,21 @@ Definition show_genum (o : genum_opts) : string :=
   ++ " caseInsensitive=" ++ bstr (go_ci o) ++ " disableTraits=" ++ bstr (go_disable_traits o)
   ++ " parsable=" ++ bstr (go_parsable_some o).
 Definition R_genum_bad := Eval vm_compute in
-  map (fun o => (show_genum o, genum_missing gen_tables o))
+  map (fun o => (show_genum o, genum_missing gen_tables o, genum_bad_sigs gen_tables o))
       (filter (fun o => negb (genum_ok gen_tables o)) all_genum_opts).
 Print R_genum_bad.
 Definition R_gerror_bad := Eval vm_compute in
-  map (fun s => (bstr s, gerror_missing gen_tables s)) (filter (fun s => negb (gerror_ok gen_tables s)) bools).
+  map (fun s => (bstr s, gerror_missing gen_tables s, gerror_bad_sigs gen_tables s))
+      (filter (fun s => negb (gerror_ok gen_tables s)) bools).
 Print R_gerror_bad.
 Definition R_gsort_bad := Eval vm_compute in
-  map (fun s => (bstr s, gsort_missing gen_tables s)) (filter (fun s => negb (gsort_ok gen_tables s)) bools).
+  map (fun s => (bstr s, gsort_missing gen_tables s, gsort_bad_sigs gen_tables s))
+      (filter (fun s => negb (gsort_ok gen_tables s)) bools).
 Print R_gsort_bad.
+Definition R_isigs_cover := Eval vm_compute in
+  (genum_isigs_cover gen_tables, gerror_isigs_cover gen_tables,
+   names_covered (tt_isigs gen_tables) "sort.Interface" (map rq_name sort_methods)).
+Print R_isigs_cover.
 Definition R_kinds_bad := Eval vm_compute in
   map (fun k => (bk_name k, render gen_render k)) (filter (fun k => negb (kind_ok gen_render k)) gen_kinds).
 Print R_kinds_bad.
@@ -61,26 +89,33 @@ Definition R_render := Eval vm_compute in gen_render.
 Print R_render.
 Definition tfunc_eqb (a b : tfunc) : bool :=
   String.eqb (tf_name a) (tf_name b) && recv_eqb (tf_recv a) (tf_recv b)
-  && Nat.eqb (length (tf_guards a)) (length (tf_guards b)).
+  && Nat.eqb (length (tf_guards a)) (length (tf_guards b))
+  && strs_eqb (tf_params a) (tf_params b) && strs_eqb (tf_results a) (tf_results b).
+Definition isig_eqb (a b : string * sigreq) : bool :=
+  String.eqb (fst a) (fst b) && String.eqb (sg_name (snd a)) (sg_name (snd b))
+  && strs_eqb (sg_params (snd a)) (sg_params (snd b)) && strs_eqb (sg_results (snd a)) (sg_results (snd b)).
 Definition tbl_eqb (a b : list tfunc) : bool :=
   Nat.eqb (length a) (length b) && forallb (fun p => tfunc_eqb (fst p) (snd p)) (combine a b).
-Definition strs_eqb (a b : list string) : bool :=
-  Nat.eqb (length a) (length b) && forallb (fun p => String.eqb (fst p) (snd p)) (combine a b).
 Definition R_same_as_hand := Eval vm_compute in
-  (tbl_eqb (tt_genum gen_tables) genum_funcs && tbl_eqb (tt_gerror gen_tables) gerror_funcs
-   && tbl_eqb (tt_gsort gen_tables) gsort_funcs,
-   strs_eqb (tt_enum gen_tables) iface_genum_Enum && strs_eqb (tt_typed gen_tables) iface_genum_TypedEnum
-   && strs_eqb (tt_error gen_tables) iface_gerror_Error && strs_eqb (tt_factory gen_tables) iface_gerror_Factory
-   && strs_eqb (tt_promoted gen_tables) methods_gerror_GError,
+  (tbl_eqb (tt_genum gen_tables) GenBuildModel.genum_funcs
+   && tbl_eqb (tt_gerror gen_tables) GenBuildModel.gerror_funcs
+   && tbl_eqb (tt_gsort gen_tables) GenBuildModel.gsort_funcs,
+   strs_eqb (tt_enum gen_tables) GenBuildModel.iface_genum_Enum
+   && strs_eqb (tt_typed gen_tables) GenBuildModel.iface_genum_TypedEnum
+   && strs_eqb (tt_error gen_tables) GenBuildModel.iface_gerror_Error
+   && strs_eqb (tt_factory gen_tables) GenBuildModel.iface_gerror_Factory
+   && strs_eqb (tt_promoted gen_tables) GenBuildModel.methods_gerror_GError,
    strs_eqb (map bk_name gen_kinds) (map bk_name hand_kinds)
    && strs_eqb (map bk_string gen_kinds) (map bk_string hand_kinds)
-   && strs_eqb (map bk_default gen_kinds) (map bk_default hand_kinds)).
+   && strs_eqb (map bk_default gen_kinds) (map bk_default hand_kinds),
+   Nat.eqb (length (tt_isigs gen_tables)) (length hand_isigs)
+   && forallb (fun p => isig_eqb (fst p) (snd p)) (combine (tt_isigs gen_tables) hand_isigs)).
 Print R_same_as_hand.
 """
 
 TIE_THEOREMS = """From Coq Require Import String List Bool.
 From GT Require Import GenBuildModel GenBuildProofs Props.C13.
-From GTgen Require Import TmplMethodsGen BasicKindsGen.
+From GTgen Require Import GenTables.
 Import ListNotations.
 (* the property statements, instantiated with the tables regenerated from the current tree *)
 Lemma cur_genum_sweep : genum_sweep gen_tables = true. Proof. vm_compute. reflexivity. Qed.
@@ -88,12 +123,8 @@ Lemma cur_gerror_sweep : gerror_sweep gen_tables = true. Proof. vm_compute. refl
 Lemma cur_gsort_sweep : gsort_sweep gen_tables = true. Proof. vm_compute. reflexivity. Qed.
 Lemma cur_kinds_sweep : kinds_sweep gen_render gen_kinds = true. Proof. vm_compute. reflexivity. Qed.
 Theorem C13_methods_current_tree :
-  (forall o, (forall r, In r (genum_required (tt_enum gen_tables) (tt_typed gen_tables) o) ->
-                        provides (emitted (tt_genum gen_tables) (genum_env o)) r)
-             /\\ NoDup (method_names (tt_genum gen_tables) (genum_env o)))
-  /\\ (forall skip, gerror_statement gen_tables skip)
-  /\\ (forall p, (forall r, In r sort_methods -> provides (emitted (tt_gsort gen_tables) (gsort_env p)) r)
-                /\\ NoDup (method_names (tt_gsort gen_tables) (gsort_env p))).
+  (forall o, genum_statement gen_tables o) /\\ (forall skip, gerror_statement gen_tables skip)
+  /\\ (forall p, gsort_statement gen_tables p).
 Proof. exact (C13_methods_any_table gen_tables cur_genum_sweep cur_gerror_sweep cur_gsort_sweep). Qed.
 Theorem C13_basic_kinds_current_tree : forall k, In k gen_kinds -> bk_const k = true ->
   In (render gen_render k) predeclared_go_types.
@@ -117,9 +148,9 @@ def run_tie(ctx):
         res["detail"] = "tie evaluation failed:\n" + out[-3000:]
         res["broken"].append("tie evaluation does not compile")
         return res
-    for name, what in (("R_genum_bad", "genum template: required methods missing under settings"),
-                       ("R_gerror_bad", "gerror template: required methods missing / Convert emitted under skipConvertGen="),
-                       ("R_gsort_bad", "gsort template: sort.Interface methods missing for pointer="),
+    for name, what in (("R_genum_bad", "genum template: (setting, required methods missing, methods with a wrong signature)"),
+                       ("R_gerror_bad", "gerror template: (skipConvertGen, methods missing, wrong signatures) or Convert emitted under skipConvertGen"),
+                       ("R_gsort_bad", "gsort template: (pointer, sort.Interface methods missing, wrong signatures)"),
                        ("R_kinds_bad", "ExtractTypeRef renders constant kinds as non-types")):
         v = _plist(out, name)
         if v is None:
@@ -128,6 +159,7 @@ def run_tie(ctx):
             v = re.sub(r"%string", "", re.sub(r"\s+", " ", v))
             res["broken"].append("%s %s" % (what, v[:1500]))
     res["render"] = _plist(out, "R_render")
+    res["isigs_cover"] = _plist(out, "R_isigs_cover")
     same = _plist(out, "R_same_as_hand")
     res["same_as_hand"] = same
     if res["broken"]:
@@ -160,8 +192,8 @@ def build_clis(ctx, repo):
     return bindir, ""
 
 
-def run_farm(ctx, binp, clibin, repo, tag, mode, specs=None, extra=(), timeout=7200):
-    """run the farm harness; returns (terms, cases, err, harness log)"""
+def run_farm(ctx, binp, clibin, repo, tag, mode, specs=None, extra=(), timeout=14400):
+    """run the farm harness; returns dict(terms, cases, canaries, err, log)"""
     prefix = os.path.join(ctx.scratch, "cases_%s" % tag)
     farm = os.path.join(ctx.scratch, "farm_%s" % tag)
     shutil.rmtree(farm, ignore_errors=True)
@@ -179,13 +211,49 @@ def run_farm(ctx, binp, clibin, repo, tag, mode, specs=None, extra=(), timeout=7
         shutil.rmtree(os.path.join(keep, tag), ignore_errors=True)
         shutil.copytree(farm, os.path.join(keep, tag))
     shutil.rmtree(farm, ignore_errors=True)
+    res = {"terms": [], "cases": [], "canaries": [], "err": None, "log": out}
     if rc != 0:
-        return [], [], "farm harness (%s) failed rc=%d:\n%s" % (tag, rc, out[-3000:]), out
-    terms = open(prefix + ".cases").read().splitlines()
-    cases = [json.loads(l) for l in open(prefix + ".jsonl").read().splitlines()]
-    if len(terms) != len(cases):
-        return [], [], "farm harness wrote %d terms but %d cases" % (len(terms), len(cases)), out
-    return terms, cases, None, out
+        res["err"] = "farm harness (%s) failed rc=%d:\n%s" % (tag, rc, out[-3000:])
+        return res
+    res["terms"] = open(prefix + ".cases").read().splitlines()
+    res["cases"] = [json.loads(l) for l in open(prefix + ".jsonl").read().splitlines()]
+    if os.path.isfile(prefix + ".canary.json"):
+        res["canaries"] = json.load(open(prefix + ".canary.json"))
+    if len(res["terms"]) != len(res["cases"]):
+        res["err"] = "farm harness wrote %d terms but %d cases" % (len(res["terms"]), len(res["cases"]))
+    return res
+
+
+CANARY_EXPECT = {"canary_gofmt": ("bad", "not_gofmt_clean"), "canary_syntax": ("bad", None),
+                 "canary_type": ("bad", "undefined"), "canary_good": ("built", None)}
+
+
+def canary_problems(canaries):
+    """the farm's own observation pipeline must flag the known-bad canary packages (unformatted
+    file, syntax error, type error) and pass the good one"""
+    out = []
+    seen = set()
+    for c in canaries:
+        k = c.get("kind")
+        seen.add(k)
+        want, cls = CANARY_EXPECT.get(k, (None, None))
+        got = c["obs"]["outcome"]
+        classes = [x["class"] for x in c["obs"].get("classes") or []]
+        if got != want or (cls and cls not in classes):
+            out.append("%s: expected %s/%s, observed %s/%s" % (k, want, cls, got, classes))
+    if canaries and seen != set(CANARY_EXPECT):
+        out.append("canaries missing: %s" % sorted(set(CANARY_EXPECT) - seen))
+    return out
+
+
+def settings_masks(broken):
+    """masks (harness -settings) of the genum settings named in the tie's model-side witnesses"""
+    masks = set()
+    for b in broken:
+        for m in re.finditer(r"json=(\d) yaml=(\d) text=(\d) caseInsensitive=(\d) disableTraits=(\d)", b):
+            j, y, t, c, d = (int(x) for x in m.groups())
+            masks.add((1 - j) | (1 - y) << 1 | (1 - t) << 2 | c << 3 | d << 4)
+    return sorted(masks)
 
 
 # ------------------------------------------------------------------ explaining build errors
@@ -209,6 +277,12 @@ def problems(case):
     (one per distinct unexplained class, one per explaining shape)"""
     shapes = case.get("shapes", [])
     traits_on = not case.get("flags", {}).get("DisableTraits", False)
+    if case["obs"].get("format_fallback"):
+        # gencommon.Write gave up formatting and wrote the raw template output: one problem,
+        # whatever the compiler and gofmt then say about the file
+        first = (case["obs"].get("classes") or [{}])[0]
+        return [{"tool": case["tool"], "shape": "", "error_class": "format_fallback",
+                 "detail": first.get("class", ""), "where": first.get("where", "")}]
     out, seen = [], set()
     for c in case["obs"].get("classes") or [{"class": "other", "detail": "bad outcome without message"}]:
         shape = ""
@@ -222,7 +296,7 @@ def problems(case):
         else:
             f = {"tool": case["tool"], "shape": "", "error_class": c["class"], "detail": c.get("detail", ""),
                  "where": c.get("where", "")}
-            if f["error_class"] == "missing_method":
+            if f["error_class"] in ("missing_method", "wrong_method_signature"):
                 f["where"] = ""  # the same missing method is reported by every use site
             if f["error_class"] == "other":
                 f["detail"] = re.sub(r"\b[A-Z]\w*\b", "_", f["detail"])[:120]
